@@ -211,7 +211,7 @@ def expected_files(meta, trace_dict, directed, K, L, assort):
         if best < x[2]:
             best = x[2]
     N = len(labels)
-    head = ['#', 'Max', 'likelihood=', str(int(best)), 'N_real=%d' % r]
+    head = ['#', 'Max', 'likelihood=', (str(int(best)) if best == best and abs(best) != float('inf') else '?'), 'N_real=%d' % r]      # (a comment line: never compared)
     files = {}
     files['run_info.dat'] = [['#', 'Number', 'of', 'realization', '=', str(r)], ['#', 'Maximum', 'Likelihood', '=', g6(best)], None,
                              ['#', 'Seed', '=', str(meta['seed'])], ['#', 'real', 'num_iters', 'term_reason', 'L2']] + \
